@@ -282,16 +282,25 @@ def tty_query_failures():
     import os, termios, threading, time
     from curtsies.window import CursorAwareWindow
     out = []
-    for vmin, vtime in ((None, None), (0, 0), (3, 2), (0, 1)):
+    for vmin, vtime, mode in ((None, None, "cooked"), (0, 0, "cooked"), (3, 2, "cooked"), (0, 1, "cooked"), (1, 0, "char-at-a-time"), (1, 0, "noecho")):
         for delay in (0.0, 0.15):
-            for typed in (b"", b"ab"):
-                case = dict(vmin=vmin, vtime=vtime, delay=delay, typed_ahead=typed.decode())
+            for typed in (b"", b"ab", b"a\rb"):
+                if typed == b"a\rb" and mode == "cooked" and vmin is not None:
+                    continue
+                case = dict(vmin=vmin, vtime=vtime, tty=mode, delay=delay, typed_ahead=typed.decode())
                 m, sl = os.openpty()
                 try:
                     a = termios.tcgetattr(sl)
                     if vmin is not None:
                         a[6][termios.VMIN] = vmin
                         a[6][termios.VTIME] = vtime
+                    if mode == "char-at-a-time":
+                        # what a host program that reads single keys leaves behind: no line editing, no echo, MIN 1 TIME 0 - and ICRNL still on
+                        a[3] &= ~(termios.ICANON | termios.ECHO)
+                        a[0] |= termios.ICRNL
+                    elif mode == "noecho":
+                        a[3] &= ~termios.ECHO
+                    if vmin is not None or mode != "cooked":
                         termios.tcsetattr(sl, termios.TCSANOW, a)
                     stop = []
 
@@ -314,8 +323,8 @@ def tty_query_failures():
                     th = threading.Thread(target=terminal, daemon=True)
                     th.start()
                     got = []
-                    ins = os.fdopen(sl, "r", closefd=False, encoding="latin-1")
-                    outs = os.fdopen(sl, "w", closefd=False, encoding="latin-1")
+                    ins = os.fdopen(sl, "r", closefd=False, encoding="latin-1", newline="")
+                    outs = os.fdopen(sl, "w", closefd=False, encoding="latin-1", newline="")
                     res = {}
 
                     def body(res=res, got=got, ins=ins, outs=outs):
@@ -354,8 +363,8 @@ def tty_query_failures():
 
 def tty_query(check, tier):
     from bounded.common import run_in_environment
-    s = Suite(check, "C18.tty_query", "get_cursor_position (on entering a CursorAwareWindow and again inside) on a real pty left with MIN / TIME control "
-              "characters unset, 0/0, 3/2, 0/1 x a terminal answering at once / after 0.15 s x keys typed ahead of the second report: the reported "
+    s = Suite(check, "C18.tty_query", "get_cursor_position (on entering a CursorAwareWindow and again inside) on a real pty left cooked with MIN / TIME control "
+              "characters unset, 0/0, 3/2, 0/1, or in character-at-a-time / no-echo mode with ICRNL on x a terminal answering at once / after 0.15 s x keys (a carriage return among them) typed ahead of the second report: the reported "
               "position, the typed bytes handed to the callback", bound="16 scenarios in a child interpreter", exhaustive=False)
     ran, res = run_in_environment("props.C18", "tty_query_failures", {}, timeout=120)
     for k in range(16):
